@@ -798,7 +798,10 @@ func (an *analyzer) analyze(fn *types.Func, decl *ast.FuncDecl, entry tfact, doR
 				if e, ok := last.(ast.Expr); ok {
 					// is it a case expr?
 					if cc, ok := an.parents[e].(*ast.CaseClause); ok {
-						if sw, ok := an.parents[an.parents[cc]].(*ast.SwitchStmt); ok && sw.Tag != nil && si == 0 {
+						if sw, ok := an.parents[an.parents[cc]].(*ast.SwitchStmt); ok && sw.Tag == nil {
+							// `switch { case cond: }` — the case expression is the condition of an if
+							an.refine(out, e, si == 0)
+						} else if ok && sw.Tag != nil && si == 0 {
 							if sel, ok := ast.Unparen(sw.Tag).(*ast.SelectorExpr); ok && sel.Sel.Name == "Type" {
 								if pair, c, ok := an.tokenRef(out, sel.X); ok && an.nonEOFConst(e) {
 									an.learnUB(out, pair, c+1)
